@@ -221,6 +221,12 @@ def _case(draw: Any, args: dict) -> dict:
         decls: list[dict] = []
         for _ in range(draw(st.integers(1, 5))):
             decls.append(draw(_function(scope, style)))
+        if draw(st.integers(0, 2)) == 0:
+            tvn = draw(name_pool("tvar"))
+            if tvn not in scope.used and tvn not in gen.PY_KEYWORDS:
+                scope.used.add(tvn)  # (the type variable is a module-level name)
+                tv = ["tvar", tvn, draw(st.sampled_from([["int"], ["str"]]))] if draw(st.booleans()) else ["tvar", tvn]
+                decls.append(gt.func(scope.take(draw(name_pool("function"))), [gt.param("tv_arg", "pos", tv, None)], ret=tv))
         for _ in range(draw(st.integers(0, 3))):
             decls.append(draw(_class(scope, style)))
         for _ in range(draw(st.integers(0, 2))):
@@ -325,7 +331,15 @@ def keyword_cases() -> list[dict]:
                 classes.append(gt.klass(cn, members, ctor=ctor))
                 enums.append(gt.enum(cn, [form(x) for x in KW[:6]] + [n + "_v"]))
                 props.append(gt.klass(cn, [gt.func(n, [], kind="property", ret=["str"]), gt.func(n + "2", [gt.param("x", "pos", ["tvar", n + "T"], None)], kind="method", ret=["tvar", n + "T"])]))
+            # functions over type variables named like keywords, with and without an upper bound
+            tvfuncs = []
+            for k in KW:
+                n = form(k)
+                tvfuncs.append(gt.func(f"tvb_{k}", [gt.param("x", "pos", ["tvar", n, ["int"]], None)], ret=["tvar", n, ["int"]]))
+            tvfuncs_free = [gt.func(f"tvf_{k}", [gt.param("x", "pos", ["tvar", form(k)], None)], ret=["list", ["tvar", form(k)]]) for k in KW]
             mods = [
+                gt.module([pkgname, "kw_typevars_bound"], tvfuncs),
+                gt.module([pkgname, "kw_typevars_free"], tvfuncs_free),
                 gt.module([pkgname, "kw_functions"], funcs),
                 gt.module([pkgname, "kw_classes"], classes),
                 gt.module([pkgname, "kw_enums"], enums),
